@@ -130,7 +130,7 @@ def int_pair(rng, n):
     return a, b
 
 
-STORAGE = ['float64', 'int64', 'int32', 'list of ints', 'float32']
+STORAGE = ['float64', 'int64', 'int32', 'list of ints', 'float32', 'ns float32 / we float64']
 
 
 def stored(v, kind):
@@ -144,6 +144,23 @@ def stored(v, kind):
     if kind == 2:
         return np.array(v, dtype=np.int32)
     return [int(x) for x in v]
+
+
+def stored_pair(a, b, st):
+    """both components in storage kind st (kind 5: north-south float32, west-east float64)"""
+    return (stored(a, 4), stored(b, 0)) if st == 5 else (stored(a, st), stored(b, st))
+
+
+def acc_pair(a, b, dt, st):
+    import eqsig
+    sa, sb = stored_pair(a, b, st)
+    return eqsig.AccSignal(sa, dt), eqsig.AccSignal(sb, dt)
+
+
+def f32_pair(rng, n):
+    """float component pair whose numbers are exactly representable in float32 (a record read from a single-precision file)"""
+    a, b = comp_pair(rng, n, False)
+    return np.array(a, dtype=np.float32).astype(float), np.array(b, dtype=np.float32).astype(float)
 
 
 def func_sum(s):
@@ -186,7 +203,7 @@ def rotation_cases(rep, rng, tier, cases, goals):
     n_ax, n_gen, n_scan = (40, 60, 60) if tier == 'quick' else (300, 500, 600)
 
     def combo(a, b, dt, ang, site, args, st=0):
-        r = guarded(lambda: eqsig.combine_at_angle(eqsig.AccSignal(stored(a, st), dt), eqsig.AccSignal(stored(b, st), dt), ang))
+        r = guarded(lambda: eqsig.combine_at_angle(*acc_pair(a, b, dt, st), ang))
         if isinstance(r, ImplError):
             viol_once(rep, site, {'function': 'eqsig.combine_at_angle', 'args': args, 'impl_error': str(r)})
             return None
@@ -220,9 +237,13 @@ def rotation_cases(rep, rng, tier, cases, goals):
         n = rng.randint(1, 16)
         exact = rng.random() < 0.5
         st = (1 + (k // 4) % 3) if k % 4 == 1 else 0      # every 4th pair: integer counts stored as int64 / int32 / list of ints
-        if st:
+        if k % 4 == 3:      # every 4th pair: single-precision records (both float32, or float32 with float64): the combination of the same numbers
+            st = 4 if (k // 4) % 3 else 5
+        if 0 < st < 4:
             exact = True
-        a, b = int_pair(rng, n) if st else comp_pair(rng, n, exact)
+        a, b = (f32_pair(rng, n) if st >= 4 else int_pair(rng, n)) if st else comp_pair(rng, n, exact)
+        if st >= 4:
+            exact = False
         dt = gens.dyadic_dt(rng, 1, 7) if exact else rng.choice([0.01, 0.005, 0.02])
         ang = rng.choice([30.0, 45.0, 60.0, 37.5, 123.456, -15.0, 200.0, 333.25, 1.0, 89.0, 91.0, 179.5,
                           rng.uniform(-180, 540), rng.uniform(0, 360), float(rng.randint(1, 359))])
@@ -235,7 +256,7 @@ def rotation_cases(rep, rng, tier, cases, goals):
         scale = float(np.max(np.abs(a)) + np.max(np.abs(b)))
         tol = 1e-12 * scale
         rp = {'function': 'eqsig.combine_at_angle', 'args': args, 'impl': out}
-        cases.append(Case('CComb %s %s %s %s %s %s' % (qlist(a), qlist(b), q(c), q(s), qlist(out), q(tol)), rp, site, klass='combine/general' + ('/int-dtype' if st else '')))
+        cases.append(Case('CComb %s %s %s %s %s %s' % (qlist(a), qlist(b), q(c), q(s), qlist(out), q(tol)), rp, site, klass='combine/general' + ('/float32' if st >= 4 else '/int-dtype' if st else '')))
         goals.append(('Rabs (cos (%s * PI / 180) - %s) <= 1/1000000000000000 /\\ Rabs (sin (%s * PI / 180) - %s) <= 1/1000000000000000'
                       % (rlit(ang), rlit(c), rlit(ang), rlit(s)), 'kernel', {'angle': ang, 'cos': c, 'sin': s}))
         idx = list(range(n)) if n <= 6 else rng.sample(range(n), 4)
@@ -257,9 +278,13 @@ def rotation_cases(rep, rng, tier, cases, goals):
         n = rng.randint(2, 24)
         exact = rng.random() < 0.5
         st = (1 + (k // 7) % 3) if k % 7 == 3 else 0      # every 7th scan (all six measures in turn): integer-dtype components
-        if st:
+        if k % 7 == 5:      # every 7th scan (all six measures in turn): float32 components (every third of them float32 with float64)
+            st = 4 if (k // 7) % 3 else 5
+        if 0 < st < 4:
             exact = True
-        a, b = int_pair(rng, n) if st else comp_pair(rng, n, exact)
+        a, b = (f32_pair(rng, n) if st >= 4 else int_pair(rng, n)) if st else comp_pair(rng, n, exact)
+        if st >= 4:
+            exact = False
         dt = gens.dyadic_dt(rng, 1, 7) if exact else rng.choice([0.01, 0.005, 0.02])
         points = rng.choice(pts_choices)
         if k == 0 and tier != 'quick':
@@ -274,7 +299,7 @@ def rotation_cases(rep, rng, tier, cases, goals):
             kws['points'] = points
         if not use_default_off:
             kws['angle_off_ns'] = off
-        r = guarded(lambda: eqsig.compute_rotated(eqsig.AccSignal(stored(a, st), dt), eqsig.AccSignal(stored(b, st), dt), **kws))
+        r = guarded(lambda: eqsig.compute_rotated(*acc_pair(a, b, dt, st), **kws))
         if isinstance(r, ImplError):
             viol_once(rep, site, {'function': 'eqsig.compute_rotated', 'args': args, 'impl_error': str(r)})
             continue
@@ -282,7 +307,7 @@ def rotation_cases(rep, rng, tier, cases, goals):
         if len(degs) != len(pv):
             viol_once(rep, site, {'function': 'eqsig.compute_rotated', 'args': args, 'impl': 'degrees and values differ in length', 'lens': [len(degs), len(pv)]})
             continue
-        ns_sig, we_sig = eqsig.AccSignal(stored(a, st), dt), eqsig.AccSignal(stored(b, st), dt)
+        ns_sig, we_sig = acc_pair(a, b, dt, st)
         direct = guarded(lambda: [float(direct_fn(eqsig.combine_at_angle(ns_sig, we_sig, d))) for d in degs])
         if isinstance(direct, ImplError):
             viol_once(rep, site, {'function': 'eqsig.compute_rotated', 'args': args, 'impl_error': str(direct)})
@@ -297,13 +322,16 @@ def rotation_cases(rep, rng, tier, cases, goals):
                % (q(off), points, qlist(degs), q(angtol), '; '.join('(%s, %s)' % (q(c), q(s)) for c, s in ks), kind, q(ARIAS_C), q(dt),
                   qlist(a), qlist(b), qlist(pv), qlist(direct), q(tol)))
         cases.append(Case(coq, {'function': 'eqsig.compute_rotated', 'args': args, 'impl': {'degrees': degs, 'values': pv}}, site,
-                          klass='scan/%s/%s%s' % (label, 'exact-angles' if ang_exact else 'tol-angles', '/int-dtype' if st else '')))
+                          klass='scan/%s/%s%s' % (label, 'exact-angles' if ang_exact else 'tol-angles', '/float32' if st >= 4 else '/int-dtype' if st else '')))
         for j in rng.sample(range(len(degs)), min(3, len(degs))):
             c, s = ks[j]
             goals.append(('Rabs (cos (%s * PI / 180) - %s) <= 1/1000000000000000 /\\ Rabs (sin (%s * PI / 180) - %s) <= 1/1000000000000000'
                           % (rlit(degs[j]), rlit(c), rlit(degs[j]), rlit(s)), 'kernel', {'angle': float(degs[j]), 'cos': c, 'sin': s}))
 
 
+RULE += ('; single-precision components: every 4th general-angle pair and every 7th scan (all six measures in turn) has both components stored as float32 arrays, or north-south float32 with west-east float64 '
+         '(numbers exactly representable in float32; angles not multiples of 90): compared with the double-precision combination of the same numbers at the same 1e-12 / 1e-11 scale '
+         '(the unchanged code multiplies by np.float64 kernel values, so the result is float64)')
 RULE += ('; angles 1 and 2 ulps on either side of every multiple of 90 in [-360, 720] (exact cardinal kernel, 1e-12 scale, plus an interval goal with the true angle), '
          'scans whose own grid passes 1 ulp below a cardinal direction ((offset, points) = (30, 34), (309.6, 26), (8.4, 76), (-31.2, 76), (0, 79), (30, 40))')
 
@@ -786,12 +814,12 @@ def replay_call(rp):
     if f == 'eqsig.combine_at_angle':
         angs = a.get('angles', [a.get('angle')])
         st = STORAGE.index(a.get('storage', 'float64'))
-        return [eqsig.combine_at_angle(eqsig.AccSignal(stored(a['ns'], st), a['dt']), eqsig.AccSignal(stored(a['we'], st), a['dt']), x).values for x in angs]
+        return [eqsig.combine_at_angle(*acc_pair(a['ns'], a['we'], a['dt'], st), x).values for x in angs]
     if f == 'eqsig.compute_rotated':
         kind = [k for k, v in measure_specs().items() if v[2] == a['measure']][0]
         kw = dict(measure_specs()[kind][0], points=a['points'], angle_off_ns=a['angle_off_ns'])
         st = STORAGE.index(a.get('storage', 'float64'))
-        return eqsig.compute_rotated(eqsig.AccSignal(stored(a['ns'], st), a['dt']), eqsig.AccSignal(stored(a['we'], st), a['dt']), **kw)
+        return eqsig.compute_rotated(*acc_pair(a['ns'], a['we'], a['dt'], st), **kw)
     c = eqsig.Cluster([stored(v, STORAGE.index(a.get('storage', 'float64'))) for v in a['values']], a['dt'], master_index=a['master_index'], stypes=a['stypes'])
     if f == 'eqsig.Cluster.time_match':
         r = c.time_match(steps=a['steps'])
